@@ -66,7 +66,7 @@ Unpack == /\ Obj \ S.live # {} /\ BufValid(S)
           /\ UNCHANGED nextc
 
 Mutate(x) == LET slot == 1 + (Len(hist) % NSlots)
-                 p == [x |-> x, r |-> S.slots[x][slot], c |-> nextc] IN
+                 p == [x |-> x, r |-> S.slots[x][slot], c |-> nextc, b |-> S.bk[x]] IN
              /\ MutateShape(S, p)
              /\ Do("mutate", "", x, 0, slot, MutatePost(S, p), {x}, {})
              /\ nextc' = nextc + 1
